@@ -500,10 +500,10 @@ def walk_reporter(ctx):
 def run(ctx):
     cls = ctx.repo.cls(M, 'EventEmitter')
     layout = walk_connect(ctx, cls)
-    walk_unconnect(ctx, cls, layout)
-    walk_emit(ctx, cls, layout)
-    walk_silent(ctx, cls)
-    walk_reporter(ctx)
+    ctx.part('C19.P2', walk_unconnect, cls, layout)
+    ctx.part('C19.P3', walk_emit, cls, layout)
+    ctx.part('C19.P7', walk_silent, cls)
+    ctx.part('C19.R1', walk_reporter)
 
 
 LEVEL_TEXT = ('Path-sensitive static walk of EventEmitter.connect/unconnect/reset/emit/silent over an abstract registry of 0..2 symbolic '
